@@ -153,6 +153,30 @@ def handle (args : List String) : String :=
       let some d := d.toNat? | return "bad-op"
       let some a := fOfBits? a | return "bad-op"
       return s!"{if isotropicRee d a (1 : Float) == 0 then "zero" else "generic"} {bitsOfF (isotropicReeFull Float.log d a)}"
+  | ["dgme", n, k] => Id.run do
+      let some n := n.toNat? | return "bad-op"
+      let some k := k.toNat? | return "bad-op"
+      if n = 0 then return "error:ZeroDivisionError"
+      if k > n || n > 400 then return "bad-op"
+      return ratStr (dickeGME n k)
+  | ["wtgme", a, b, c] => Id.run do
+      let some a := fOfBits? a | return "bad-op"
+      let some b := fOfBits? b | return "bad-op"
+      let some c := fOfBits? c | return "bad-op"
+      if !(Float.abs (a * a + b * b + c * c - 1) < 1e-10) then return "error:assert"
+      return bitsOfF (wtypeGME (16 : Float) 2 0.75 4 a b c)
+  | ["eprobe", kind, dim] => Id.run do
+      let some dim := dim.toNat? | return "bad-op"
+      if dim > 24 then return "bad-op"
+      if kind = "eq8" then
+        if dim < 2 then return "error:assert"
+        let ent := (List.range (2 * dim)).flatMap fun m => flatEntries dim (eprobe8 dim m)
+        return gintListStr ent
+      else if kind = "eq9" then
+        if dim < 4 || dim % 2 ≠ 0 then return "error:assert"
+        let ent := (List.range 4).flatMap fun b => flatEntries dim (eprobe9 b dim)
+        return s!"{if (List.range 4).all (fun b => eprobe9Unitary b dim) then "1" else "0"} {gintListStr ent}"
+      else return "error:assert"
   | ["upbtable", name] => Id.run do
       let some t := tableOf? name | return "bad-op"
       return " ".intercalate (t.map fun party => "|".intercalate (party.map sampListStr))
